@@ -453,6 +453,11 @@ def _projection_cases(ctx, hs):
                 continue
             checks.append(SG.tx_case(ev, before, ev["after"], ops, M.to_coq))
             kind = ev["op"] + ((":" + ev["recycle"]) if ev.get("recycle") else "")
+            if ev["op"] in ("define", "amend", "static") and before is not None:
+                was = {s["key"] for s in before["steps"] if s["deferred"] and s["state"] == M.PENDING}
+                if any(s["key"] in was and not s["deferred"] and s["state"] == M.PENDING for s in ev["after"]["steps"]):
+                    # step_node_undefer_reattached fired (model/Graph.v does not have the trigger: verdict 7)
+                    ctx.count("projection_transactions_where_the_undefer_trigger_fired")
             if "scenario" in h:
                 ctx.count("scenario_transactions")
             descr.append((kind, hi, ei))
@@ -486,7 +491,8 @@ def _projection_cases(ctx, hs):
                    "3": "the transaction model rejects the operation or a primitive is undefined",
                    "4": "the state before does not satisfy J or is not coupled to the snapshot",
                    "5": "the state after the transaction does not satisfy J (inv_core_b && ntc_b)",
-                   "6": "the result of the replay is not coupled to the state after the transaction"}.get(
+                   "6": "the result of the replay is not coupled to the state after the transaction",
+                   "7": "certified with the stored workflow read off the result"}.get(
                        (vals[0] or "").strip(), str(vals[0]))
         ctx.add_failure(
             "correspondence", "projection:" + kind, sig,
